@@ -16,6 +16,7 @@ from ast import (
     arguments,
 )
 from collections import OrderedDict
+from copy import deepcopy
 from functools import partial
 from itertools import chain
 from typing import Optional
@@ -71,6 +72,7 @@ def argparse_function(
     :return:  AST node for function definition which constructs argparse
     :rtype: ```FunctionDef```
     """
+    intermediate_repr = deepcopy(intermediate_repr)
     function_name: Optional[str] = function_name or intermediate_repr["name"]
     function_type: Optional[str] = function_type or intermediate_repr["type"]
     internal_body: Internal = get_internal_body(
